@@ -75,8 +75,11 @@ F_FIELDS = [
     ("hasenv", r"if\s*\(\s*fiber->env\s*\)\s*fflags\s*\|=\s*JANET_FIBER_FLAG_HASENV\s*;"),
     ("header", r"pushint\s*\(\s*st\s*,\s*fflags\s*\)\s*;\s*pushint\s*\(\s*st\s*,\s*fiber->frame\s*\)\s*;\s*pushint\s*\(\s*st\s*,\s*fiber->stackstart\s*\)\s*;\s*pushint\s*\(\s*st\s*,\s*fiber->stacktop\s*\)\s*;\s*pushint\s*\(\s*st\s*,\s*fiber->maxstack\s*\)\s*;"),
     ("loop", r"int32_t\s+i\s*=\s*fiber->frame\s*;\s*int32_t\s+j\s*=\s*fiber->stackstart\s*-\s*JANET_FRAME_SIZE\s*;\s*while\s*\(\s*i\s*>\s*0\s*\)\s*\{"),
-    ("frame-hasenv", r"if\s*\(\s*frame->env\s*\)\s*frame->flags\s*\|=\s*JANET_STACKFRAME_HASENV\s*;"),
-    ("frame-ints", r"pushint\s*\(\s*st\s*,\s*frame->flags\s*\)\s*;\s*pushint\s*\(\s*st\s*,\s*frame->prevframe\s*\)\s*;\s*int32_t\s+pcdiff\s*=\s*\(int32_t\)\s*\(\s*frame->pc\s*-\s*frame->func->def->bytecode\s*\)\s*;\s*pushint\s*\(\s*st\s*,\s*pcdiff\s*\)\s*;"),
+    # either the bit is stored in the live frame (`frame->flags |= …; pushint(st, frame->flags)`), or it is computed in a local
+    # (`int32_t frameflags = frame->flags [& ~HASENV]; if (frame->env) frameflags |= HASENV; … pushint(st, frameflags)`)
+    ("frame-hasenv", r"(?:if\s*\(\s*frame->env\s*\)\s*(frame->flags)\s*\|=\s*JANET_STACKFRAME_HASENV\s*;"
+                     r"|int32_t\s+frameflags\s*=\s*frame->flags\s*(?:&\s*~\s*JANET_STACKFRAME_HASENV\s*)?;\s*if\s*\(\s*frame->env\s*\)\s*frameflags\s*\|=\s*JANET_STACKFRAME_HASENV\s*;)"),
+    ("frame-ints", r"pushint\s*\(\s*st\s*,\s*(frame->flags|frameflags)\s*\)\s*;\s*pushint\s*\(\s*st\s*,\s*frame->prevframe\s*\)\s*;\s*int32_t\s+pcdiff\s*=\s*\(int32_t\)\s*\(\s*frame->pc\s*-\s*frame->func->def->bytecode\s*\)\s*;\s*pushint\s*\(\s*st\s*,\s*pcdiff\s*\)\s*;"),
     ("frame-func", r"marshal_one\s*\(\s*st\s*,\s*janet_wrap_function\s*\(\s*frame->func\s*\)\s*,\s*flags\s*\+\s*1\s*\)\s*;"),
     ("frame-env", r"if\s*\(\s*frame->env\s*\)\s*marshal_one_env\s*\(\s*st\s*,\s*frame->env\s*,\s*flags\s*\+\s*1\s*\)\s*;"),
     ("frame-slots", r"for\s*\(\s*int32_t\s+k\s*=\s*i\s*;\s*k\s*<\s*j\s*;\s*k\+\+\s*\)\s*marshal_one\s*\(\s*st\s*,\s*fiber->data\[k\]\s*,\s*flags\s*\+\s*1\s*\)\s*;\s*j\s*=\s*i\s*-\s*JANET_FRAME_SIZE\s*;\s*i\s*=\s*frame->prevframe\s*;"),
@@ -95,9 +98,10 @@ FU_FIELDS = [
     ("frame-align", r"if\s*\(\s*\(int32_t\)\s*\(\s*prevframe\s*\+\s*JANET_FRAME_SIZE\s*\)\s*>\s*stack\s*\)"),
     ("frame-slots", r"for\s*\(\s*int32_t\s+i\s*=\s*stack\s*;\s*i\s*<\s*stacktop\s*;\s*i\+\+\s*\)\s*data\s*=\s*unmarshal_one\s*\(\s*st\s*,\s*data\s*,\s*fiber->data\s*\+\s*i\s*,\s*flags\s*\+\s*1\s*\)\s*;"),
     ("frame-next", r"stacktop\s*=\s*stack\s*-\s*JANET_FRAME_SIZE\s*;\s*stack\s*=\s*prevframe\s*;"),
-    ("env", r"if\s*\(\s*fiber_flags\s*&\s*JANET_FIBER_FLAG_HASENV\s*\)\s*\{\s*Janet\s+envv\s*;\s*fiber_flags\s*&=\s*~JANET_FIBER_FLAG_HASENV\s*;\s*data\s*=\s*unmarshal_one\s*\(\s*st\s*,\s*data\s*,\s*&envv\s*,\s*flags\s*\+\s*1\s*\)\s*;"),
-    ("child", r"if\s*\(\s*fiber_flags\s*&\s*JANET_FIBER_FLAG_HASCHILD\s*\)\s*\{\s*Janet\s+fiberv\s*;\s*fiber_flags\s*&=\s*~JANET_FIBER_FLAG_HASCHILD\s*;\s*data\s*=\s*unmarshal_one\s*\(\s*st\s*,\s*data\s*,\s*&fiberv\s*,\s*flags\s*\+\s*1\s*\)\s*;"),
+    ("env", r"if\s*\(\s*fiber_flags\s*&\s*JANET_FIBER_FLAG_HASENV\s*\)\s*\{\s*Janet\s+envv\s*;\s*(fiber_flags\s*&=\s*~JANET_FIBER_FLAG_HASENV\s*;\s*)?data\s*=\s*unmarshal_one\s*\(\s*st\s*,\s*data\s*,\s*&envv\s*,\s*flags\s*\+\s*1\s*\)\s*;"),
+    ("child", r"if\s*\(\s*fiber_flags\s*&\s*JANET_FIBER_FLAG_HASCHILD\s*\)\s*\{\s*Janet\s+fiberv\s*;\s*(fiber_flags\s*&=\s*~JANET_FIBER_FLAG_HASCHILD\s*;\s*)?data\s*=\s*unmarshal_one\s*\(\s*st\s*,\s*data\s*,\s*&fiberv\s*,\s*flags\s*\+\s*1\s*\)\s*;"),
     ("last", r"data\s*=\s*unmarshal_one\s*\(\s*st\s*,\s*data\s*,\s*&fiber->last_value\s*,\s*flags\s*\+\s*1\s*\)\s*;"),
+    ("store-flags", r"fiber->flags\s*=\s*fiber_flags\s*(?:&\s*~\s*(\(?[A-Z_|\s]+\)?)\s*)?;"),
 ]
 
 
@@ -241,8 +245,32 @@ def extract(tree):
     if not (m1 and m2 and m3 and m4):
         raise ExtractError("fiber wire flags / JANET_FRAME_SIZE not recognised")
     c["fiberHasChildBit"], c["fiberHasEnvBit"], c["frameSize"] = int(m1.group(1)), int(m2.group(1)), int(m4.group(1))
-    _ordered(csrc.func_body(src, "marshal_one_fiber"), F_FIELDS, "marshal_one_fiber")
-    _ordered(csrc.func_body(src, "unmarshal_one_fiber"), FU_FIELDS, "unmarshal_one_fiber")
+    fm = _ordered(csrc.func_body(src, "marshal_one_fiber"), F_FIELDS, "marshal_one_fiber")
+    in_place = fm["frame-hasenv"].group(1) is not None
+    if (fm["frame-ints"].group(1) == "frame->flags") != in_place:
+        raise ExtractError("marshal_one_fiber: the frame flags that are written are not the ones HASENV was added to")
+    # 1 = marshalling stores the image-only JANET_STACKFRAME_HASENV bit in the live frame (the fiber is changed by being marshalled)
+    c["marshalStoresFrameHasEnv"] = 1 if in_place else 0
+    ufb = csrc.func_body(src, "unmarshal_one_fiber")
+    fu = _ordered(ufb, FU_FIELDS, "unmarshal_one_fiber")
+    # the bits cleared between the wire flags and `fiber->flags = …` (nothing else may assign fiber_flags / fiber->flags)
+    if len(re.findall(r"\bfiber_flags\s*(?:[&|^+\-]?=)(?!=)", ufb)) != 1 + (1 if fu["env"].group(1) else 0) + (1 if fu["child"].group(1) else 0):
+        raise ExtractError("unmarshal_one_fiber: fiber_flags is assigned somewhere else")
+    if len(re.findall(r"fiber->flags\s*(?:[&|^+\-]?=)(?!=)", ufb)) != 2:
+        raise ExtractError("unmarshal_one_fiber: fiber->flags is assigned other than `= 0` and `= fiber_flags …`")
+    strip = set()
+    if fu["env"].group(1):
+        strip.add("HASENV")
+    if fu["child"].group(1):
+        strip.add("HASCHILD")
+    mexpr = fu["store-flags"].group(1)
+    if mexpr:
+        names = [t.strip() for t in mexpr.strip().strip("()").split("|")]
+        for t in names:
+            if t not in ("JANET_FIBER_FLAG_HASENV", "JANET_FIBER_FLAG_HASCHILD"):
+                raise ExtractError("unmarshal_one_fiber: fiber->flags mask `%s` not recognised" % mexpr)
+            strip.add(t[len("JANET_FIBER_FLAG_"):])
+    c["fiberMemStripMask"] = sum((1 << c["fiber%sBit" % {"HASENV": "HasEnv", "HASCHILD": "HasChild"}[t]]) for t in strip)
     m = re.search(r"case\s+JANET_FIBER\s*:\s*\{\s*MARK_SEEN\s*\(\s*\)\s*;\s*pushbyte\s*\(\s*st\s*,\s*LB_FIBER\s*\)\s*;\s*marshal_one_fiber\s*\(\s*st\s*,\s*janet_unwrap_fiber\s*\(\s*x\s*\)\s*,\s*flags\s*\+\s*1\s*\)\s*;", mo)
     if not m:
         raise ExtractError("marshal_one: case JANET_FIBER not recognised")
